@@ -134,6 +134,7 @@ Proof.
   destruct (negb (zb fl) && io_flag (inst_of b i) && (cause =? sHbFail)) eqn:Hd; [exfalso|reflexivity].
   apply andb_prop in Hd. destruct Hd as [Hd Ec]. apply andb_prop in Hd. destruct Hd as [Hfl Fi].
   cbn in GL. apply app_nil_l2 in GL. destruct GL as [_ GL]. apply app_nil_l2 in GL. destruct GL as [_ GL]. apply app_nil_l2 in GL. destruct GL as [_ GL].
+  apply app_nil_l2 in GL. destruct GL as [GL _].
   apply pwhen_nil in GL. rewrite Hfl, Fi, Ec in GL. cbn [andb] in GL.
   apply Bool.orb_false_iff in GL. destruct GL as [Gok Gto].
   destruct (Z.ltb_spec (io_hb_te (inst_of b i)) 0) as [Te|Te].
